@@ -534,15 +534,19 @@ def nested_leaves(nested):
     return [nested] if isinstance(nested, str) else [x for c in nested for x in nested_leaves(c)]
 
 
-def to_newick(nested, names=None):
-    """names: optional {clade: internal name}."""
+def to_newick(nested, names=None, colors=None):
+    """names: optional {clade: internal name}; colors: optional {clade: rrggbb} (NHX)."""
 
     def go(x):
         if isinstance(x, str):
-            return x, (x,)
-        parts = [go(c) for c in x]
-        clade = tuple(sorted(y for _, cl in parts for y in cl))
-        label = (names or {}).get(clade, "")
-        return "(" + ",".join(p for p, _ in parts) + ")" + label, clade
+            text, clade = x, (x,)
+        else:
+            parts = [go(c) for c in x]
+            clade = tuple(sorted(y for _, cl in parts for y in cl))
+            label = (names or {}).get(clade, "")
+            text = "(" + ",".join(p for p, _ in parts) + ")" + label
+        if colors and clade in colors:
+            text += f"[&&NHX:color={colors[clade]}]"
+        return text, clade
 
     return go(nested)[0] + ";"
